@@ -41,6 +41,7 @@ type Stats struct {
 	DirOpsLost       int
 	CreatesLost      int
 	LenShrunk        int // file came back shorter than the process saw it
+	LenUnaligned     int // ... and ends at a byte that is not a multiple of 8
 	StaleBytesBehind int // power loss left old non-zero bytes inside a rewritten range
 }
 
@@ -411,6 +412,13 @@ func (d *Disk) tearFile(tp Chooser, ino *Inode, granule int64) {
 			newLen = lower + int64(tp.Choose(int((volLen-lower)/8+1)))*8
 			if newLen > volLen {
 				newLen = volLen
+			}
+			// One time in four the file ends at an arbitrary byte, not on an 8-byte boundary: the length a file system
+			// records for a torn extending write need not respect the application's frame alignment (a tail file
+			// that was not preallocated can end part-way through a frame header; seeded C03i).
+			if tp.Choose(4) == 3 && newLen-lower >= 8 {
+				newLen -= 1 + int64(tp.Choose(7))
+				d.Stats.LenUnaligned++
 			}
 		}
 	}
